@@ -677,17 +677,32 @@ static Type *pointers(Token **rest, Token *tok, Type *ty) {
   return ty;
 }
 
+// Returns the ")" that closes a "(" whose first inner token is `tok`.
+static Token *find_closing_paren(Token *tok) {
+  int level = 0;
+  for (; tok->kind != TK_EOF; tok = tok->next) {
+    if (equal(tok, "("))
+      level++;
+    else if (equal(tok, ")") && level-- == 0)
+      return tok;
+  }
+  error_tok(tok, "expected ')'");
+}
+
 // declarator = pointers ("(" ident ")" | "(" declarator ")" | ident) type-suffix
 static Type *declarator(Token **rest, Token *tok, Type *ty) {
   ty = pointers(&tok, tok, ty);
 
   if (equal(tok, "(")) {
+    // The suffix after the parentheses binds first, so read it before
+    // the nested declarator. (Finding the ")" by parsing the nested
+    // declarator twice would take time exponential in the nesting.)
     Token *start = tok;
-    Type dummy = {};
-    declarator(&tok, start->next, &dummy);
-    tok = skip(tok, ")");
-    ty = type_suffix(rest, tok, ty);
-    return declarator(&tok, start->next, ty);
+    tok = find_closing_paren(start->next);
+    ty = type_suffix(rest, tok->next, ty);
+    ty = declarator(&tok, start->next, ty);
+    skip(tok, ")");
+    return ty;
   }
 
   Token *name = NULL;
@@ -710,11 +725,11 @@ static Type *abstract_declarator(Token **rest, Token *tok, Type *ty) {
 
   if (equal(tok, "(")) {
     Token *start = tok;
-    Type dummy = {};
-    abstract_declarator(&tok, start->next, &dummy);
-    tok = skip(tok, ")");
-    ty = type_suffix(rest, tok, ty);
-    return abstract_declarator(&tok, start->next, ty);
+    tok = find_closing_paren(start->next);
+    ty = type_suffix(rest, tok->next, ty);
+    ty = abstract_declarator(&tok, start->next, ty);
+    skip(tok, ")");
+    return ty;
   }
 
   return type_suffix(rest, tok, ty);
